@@ -13,6 +13,7 @@ status == the model's accounting.  A model-free oracle evaluates the property it
 """
 import json
 import os
+import re
 from concurrent.futures import ThreadPoolExecutor
 
 from .. import core
@@ -66,6 +67,81 @@ def gen_long_scenario(rng, sid, base, inside_dir=False):
     scn = A.Scenario(sid, base, [{"content": content, "members": members}], extra=extra, move_dir="w/zz_out" if inside_dir else "out")
     scn.long_names = True
     return scn
+
+
+def temp_name_correspondence(ctx):
+    """FsCommand::temp_file against coq/TempNameModel.v: generated file names (lengths 1..255; ASCII, 2/3/4-byte UTF-8 sequences
+    straddling byte 230, runs of continuation bytes, invalid bytes) go through the real function (harness fsx tf) and through
+    temp_stem evaluated by coqc (vm_compute) on the same names; plus the model-free facts: same directory, suffix = '.' + 24
+    alphanumerics, total length <= 255."""
+    import subprocess
+    core.build_harness(["fsx"])
+    fsx = os.path.join(core.BIN, "fsx")
+    rng = ctx.rng.fork()
+    names = []
+    units = [b"a", b"Z", b"\xc3\xa9", b"\xe2\x82\xac", b"\xf0\x9f\x98\x80", b"\x80", b"\xbf", b"\xff", b" ", b"."]
+    for n in list(range(225, 256)) + [1, 2, 24, 25, 100, 229, 230, 231]:
+        for fill in (b"a", b"\xc3\xa9", b"\xe2\x82\xac", b"\xf0\x9f\x98\x80", b"\x80"):
+            for off in (0, 1, 2, 3):
+                b = (b"x" * off + fill * 300)[:n]
+                if b and b not in (b".", b"..") and b"/" not in b:
+                    names.append(b)
+    for _ in range(ctx.pick(300, 3000)):
+        n = rng.choice([rng.below(255) + 1, 226 + rng.below(30)])
+        b = b""
+        while len(b) < n:
+            b += rng.choice(units)
+        b = b[:n]
+        if b not in (b".", b"..") and b"\x00" not in b:
+            names.append(b)
+    names = sorted(set(names))
+    impl = core.run_lines_parallel(fsx, ["/d/" + A.pct(nm) for nm in names], args=["tf"])
+    stems = []
+    for nm, line in zip(names, impl):
+        ctx.count()
+        f = line.split(" ")
+        stem = re.sub(rb"%([0-9A-Fa-f]{2})", lambda m_: bytes([int(m_.group(1), 16)]), f[2].encode()) if len(f) > 2 and f[2] else b""
+        stems.append(stem)
+        ctx.distinct(("tf", nm), len(nm) > 230)
+        ctx.bump("temp_name_victim_name_length", "231-255" if len(nm) > 230 else ("226-230" if len(nm) > 225 else "<=225"))
+        bad = []
+        if f[0] != "1":
+            bad.append("the temporary name is not in the victim's directory")
+        if f[1] != "1":
+            bad.append("the suffix is not '.' + 24 alphanumerics")
+        if len(stem) + 25 > 255:
+            bad.append("the temporary name is %d bytes long (NAME_MAX 255)" % (len(stem) + 25))
+        if not nm.startswith(stem):
+            bad.append("the stem is not a prefix of the victim's name")
+        if bad:
+            ctx.violation({"kind": "temp_name_unusable"}, "FsCommand::temp_file(%r): %s" % (nm, "; ".join(bad)),
+                          {"layer": "temp_file", "name_hex": nm.hex(), "stem_hex": stem.hex()}, found_input=True)
+    # the model on the same names: one coqc run, the result is the list of the indices that differ
+    d = os.path.join(ctx.scratch, "tempname")
+    os.makedirs(d, exist_ok=True)
+    fmt = lambda b: "[" + "; ".join(str(x) for x in b) + "]"
+    with open(os.path.join(d, "TempCases.v"), "w") as fh:
+        fh.write("From FV Require Import Base TempNameModel.\nOpen Scope N_scope.\n")
+        fh.write("Definition eqb (a b : list N) : bool := if list_eq_dec N.eq_dec a b then true else false.\n")
+        fh.write("Definition cases : list (list N * list N) := [\n" + ";\n".join("(%s, %s)" % (fmt(n_), fmt(s_)) for n_, s_ in zip(names, stems)) + "].\n")
+        fh.write("Definition differing := map fst (filter (fun p => negb (eqb (temp_stem (fst (snd p))) (snd (snd p)))) (combine (seq 0 (length cases)) cases)).\n")
+        fh.write("Eval vm_compute in (length cases, differing).\n")
+    p = subprocess.run(["timeout", "300", "coqc", "-noglob", "-Q", core.COQ, "FV", "TempCases.v"], cwd=d, stdout=subprocess.PIPE, stderr=subprocess.PIPE)
+    out = p.stdout.decode()
+    m = re.search(r"=\s*\((\d+)%nat,\s*(\[[^\]]*\])", out.replace("\n", " "))
+    if p.returncode != 0 or not m or int(m.group(1)) != len(names):
+        ctx.violation({"kind": "model_driver_failed"}, "coqc on the temp-name cases failed: %s" % (p.stderr.decode()[-400:] + out[-200:]),
+                      {"layer": "temp_file"}, found_input=False)
+        return
+    diff = [int(x.replace("%nat", "")) for x in m.group(2).strip("[]").split(";") if x.strip()]
+    ctx.extra["temp_name_cases_through_the_model"] = len(names)
+    if diff:
+        i = diff[0]
+        ctx.violation({"kind": "temp_name_differs_from_model"},
+                      "FsCommand::temp_file keeps %d bytes of the %d-byte name %r, TempNameModel.temp_stem differs (%d such names)" % (
+                          len(stems[i]), len(names[i]), names[i][:40], len(diff)),
+                      {"layer": "temp_file", "name_hex": names[i].hex(), "stem_hex": stems[i].hex(), "correspondence": "TempNameModel.temp_stem vs FsCommand::temp_file"},
+                      found_input=(len(stems[i]) + 25 > 255 or not names[i].startswith(stems[i])))
 
 
 def victims_of(cmds):
@@ -368,6 +444,8 @@ def run(ctx):
             res = list(ex.map(lambda j: explore(env, j[0], j[1], ctx.quick, j[2], errnos, j[3], nshards, light=j[4]), jobs))
         cases = [c for r in res for c in r]
 
+    if not ctx.replay:
+        temp_name_correspondence(ctx)
     outs = core.run_lines_parallel(model, [c.line for c in cases])
     corr = []
     for c, o in zip(cases, outs):
